@@ -373,7 +373,19 @@ def check(prog, rep):
             from .c04 import answer_sites
 
             ok = all(s.is_none for s in answer_sites(a.body, a.node))
-        dflt_none = "None" in src(d.default)
+        from .c04 import answer_sites as _as
+        if a is None:
+            try:
+                dsites = _as(d.default, None) if d.default else []
+            except AnalysisError as e:
+                rep.undecided(f"R12.3 {fi.name}: what a Parameter node (no arm of its own) is answered with is not readable: {e}")
+                continue
+            if not dsites:
+                rep.undecided(f"R12.3 {fi.name}: no answer site in the default path; what a Parameter node is answered with is not readable")
+                continue
+            dflt_none = all(s.is_none for s in dsites)
+        else:
+            dflt_none = True
         rep.ob("R12.3", fi.name, ok and dflt_none, "Parameter has no polynomial degree (None): a model containing one is never classified linear, hence never frozen into LP data" if ok and dflt_none else "Parameter nodes are given a finite degree: a parameterised model can be routed to the LP path, whose cached matrices hold the parameter's old value", loc=fi.loc, detail="parameter-degree-none")
     P = prog.cls("Problem")
     lin = P.methods.get("_is_linear_problem")
